@@ -445,8 +445,8 @@ def run(tier, seed, replay=None):
                 "with each other and with the generated parser; the restore-on-error differential also has every stack-changing operand as the whole body "
                 "of +, {1,}, {1,3}, {2} in atomic, compound-atomic and normal rules below two or three unequal entries, followed by readers of the whole "
                 "stack (both feature sets); the Unicode-property differential (one rule per property name of pest::unicode - binary properties, general "
-                "categories, scripts - on the code points at and around every boundary of the property's own table over all planes and on every 0x1d3-th "
-                "code point, alone and after `x`; only differences go to the runner); the case-insensitive differential (`^\"..\"` literals with cased "
+                "categories, scripts - on the code points at and around every boundary of the property's own table over all planes and on every 0x3a7-th "
+                "code point, alone and every fourth also after `x`; only differences go to the runner); the case-insensitive differential (`^\"..\"` literals with cased "
                 "letters outside ASCII - Latin-1, Cyrillic, Greek, dotted I, sharp s, a titlecase digraph, the Kelvin sign - bare, repeated, under predicates, "
                 "pushed, in normal / atomic / compound-atomic rules, on every literal as written, lower-cased, upper-cased, ASCII-folded either way, "
                 "case-swapped, alone, followed by x and in pairs) "
